@@ -10,11 +10,12 @@ module".  The refinement map is `φ : G1.Pt → E(F_p)` into Mathlib's group of 
 (`Proofs/ComposeTblsG1.lean`: `add`, `neg` of the driver ARE the group operations on valid points, `p`
 prime by `Proofs/Primes.lean`), and `Proofs/ComposeNatural.lean` (naturality of the `Recover` model).
 
-Hypotheses that REMAIN, explicit in every statement:
+`Proofs/ComposeTblsG1Mul.lean` proves that the driver's Jacobian double-and-add `G1.mul` (doubling
+"dbl-2009-l", mixed addition, final inversion) computes `k • P` in that group.
+
+The ONE hypothesis that remains, explicit in every statement that needs it:
 * `hr : ∀ P : E, r • P = 0` — `#E(F_p) = r` (the curve group has exponent `r`); needed for `E(F_p)` to
   be a `Z/r`-module at all.  Not provable here (no point counting in Mathlib).
-* `hmul : MulBridge` — the driver's Jacobian double-and-add `G1.mul` computes `k • P` (see
-  design/Compose.md: stated precisely, not yet proved for the mixed-addition formulas).
 -/
 import DosModel.Proofs.ComposeTblsG1Module
 
@@ -30,6 +31,11 @@ theorem g1_driver_group_law (P Q : Pt) (hP : Valid P) (hQ : Valid Q) :
     (Valid (G1.add P Q) ∧ φ (G1.add P Q) = φ P + φ Q) ∧ (Valid (G1.neg P) ∧ φ (G1.neg P) = -φ P)
     ∧ (φ P = φ Q → P = Q) ∧ (∀ b R, G1.decode b = some R → Valid R) :=
   ⟨valid_add P Q hP hQ, valid_neg P hP, φ_inj hP hQ, decode_valid⟩
+
+/-- **the driver's scalar multiplication is `k •` of the group** (no hypothesis besides validity): the
+Jacobian double-and-add of `Model/TblsG1.lean` stays on the curve and computes the `k`-fold sum -/
+theorem g1_driver_mul_is_scalar_multiple (k : Nat) (P : Pt) (hP : Valid P) :
+    Valid (G1.mul k P) ∧ φ (G1.mul k P) = k • φ P := mulBridge k P hP
 
 /-- hence the driver's addition is commutative and associative on valid points -/
 theorem g1_driver_add_laws (P Q R : Pt) (hP : Valid P) (hQ : Valid Q) (hR : Valid R) :
@@ -48,12 +54,13 @@ message), `signers` distinct member numbers `< n`, at least `t` of them, each wi
 carrying its index and decoding to its share `f(i+1) • H(m)` computed by the driver's own `G1.mul` — in
 any order, with anything else in the list.  Then the driver's `recover` returns the encoding of
 `f(0) • H(m)`. -/
-theorem recover_unique_g1 (hr : ∀ P : E, G1.r • P = 0) (hmul : MulBridge) (f : List (Zq G1.r))
+theorem recover_unique_g1 (hr : ∀ P : E, G1.r • P = 0) (f : List (Zq G1.r))
     (hm : Pt) (hv : Valid hm) (t n : Nat) (ht : 0 < t) (hf : f.length ≤ t) (hn : n < 2 ^ 63)
     (sigs : List Bytes) (signers : List Nat) (hnd : signers.Nodup) (hcount : t ≤ signers.length)
     (hgood : ∀ i ∈ signers, i < n ∧ ∃ e ∈ sigs, sigIndex e = some i ∧
       G1.decode (sigValue e) = some (G1.mul (priEval f (i : Int)).val hm)) :
     recover g1Codec f hm sigs t n = .ok (G1.encode (G1.mul (f.headD 0).val hm)) := by
+  have hmul := mulBridge
   letI := moduleE hr
   rw [← recover_eq_abstract hr hmul f hm hv sigs t n]
   have hq : t ≤ (members codecE f (φ hm) n sigs).card := by
@@ -75,9 +82,10 @@ theorem recover_unique_g1 (hr : ∀ P : E, G1.r • P = 0) (hmul : MulBridge) (f
   rw [← (hmul _ hm hv).2, ψ_φ _ (hmul _ hm hv).1]
 
 /-- **C02 `recover_total` for the driver**: never a panic, any polynomial, any entries -/
-theorem recover_total_g1 (hr : ∀ P : E, G1.r • P = 0) (hmul : MulBridge) (f : List (Zq G1.r))
+theorem recover_total_g1 (hr : ∀ P : E, G1.r • P = 0) (f : List (Zq G1.r))
     (hm : Pt) (hv : Valid hm) (t n : Nat) (ht : 0 < t) (hn : n < 2 ^ 63) (sigs : List Bytes) :
     ∀ s, recover g1Codec f hm sigs t n ≠ .panic s := by
+  have hmul := mulBridge
   letI := moduleE hr
   rw [← recover_eq_abstract hr hmul f hm hv sigs t n]
   exact Props.C02.recover_total codecE f (φ hm) t n ht
@@ -85,10 +93,11 @@ theorem recover_total_g1 (hr : ∀ P : E, G1.r • P = 0) (hmul : MulBridge) (f 
 
 /-- **C03 `recover_ok_verifies` for the driver**: whatever the driver's `recover` returns is the
 encoding of `f(0) • H(m)` and passes the driver's `bls.Verify` under the group key -/
-theorem recover_ok_verifies_g1 (hr : ∀ P : E, G1.r • P = 0) (hmul : MulBridge) (f : List (Zq G1.r))
+theorem recover_ok_verifies_g1 (hr : ∀ P : E, G1.r • P = 0) (f : List (Zq G1.r))
     (hm : Pt) (hv : Valid hm) (t n : Nat) (ht : 0 < t) (hf : f.length ≤ t) (hn : n < 2 ^ 63)
     (sigs : List Bytes) (s : Bytes) (h : recover g1Codec f hm sigs t n = .ok s) :
     s = G1.encode (G1.mul (f.headD 0).val hm) ∧ blsVerifyR g1Codec (f.headD 0) hm s = .ok := by
+  have hmul := mulBridge
   letI := moduleE hr
   rw [← recover_eq_abstract hr hmul f hm hv sigs t n] at h
   obtain ⟨_, h2, h3⟩ := Props.C03.recover_ok_verifies codecE codecE_roundtrip f (φ hm) t n ht hf
@@ -100,5 +109,49 @@ theorem recover_ok_verifies_g1 (hr : ∀ P : E, G1.r • P = 0) (hmul : MulBridg
   refine ⟨hs, ?_⟩
   rw [← Compose.Natural.blsVerifyR_nat (hom hr hmul) codecHom (f.headD 0) hm hv s]
   exact h3
+
+/-- **C03 `below_threshold_errors` for the driver**: fewer than `t` members with a countable entry ⇒
+"not enough shares", whatever else is in the list (no `hr`-free shortcut: the statement is transported
+through the same module structure) -/
+theorem below_threshold_errors_g1 (hr : ∀ P : E, G1.r • P = 0) (f : List (Zq G1.r))
+    (hm : Pt) (hv : Valid hm) (t n : Nat) (ht : 0 < t) (sigs : List Bytes)
+    (hfew : ∀ signers : List Nat, signers.Nodup →
+      (∀ i ∈ signers, i < n ∧ ∃ e ∈ sigs, sigIndex e = some i ∧
+        G1.decode (sigValue e) = some (G1.mul (priEval f (i : Int)).val hm)) → signers.length < t) :
+    recover g1Codec f hm sigs t n = .errFew := by
+  have hmul := mulBridge
+  letI := moduleE hr
+  rw [← recover_eq_abstract hr hmul f hm hv sigs t n]
+  apply Props.C03.below_threshold_errors codecE f (φ hm) t n ht sigs
+  have := hfew (members codecE f (φ hm) n sigs).toList (Finset.nodup_toList _) (by
+    intro i hi
+    rw [Finset.mem_toList] at hi
+    simp only [members, List.mem_toFinset, List.mem_filterMap] at hi
+    obtain ⟨e, he, hval⟩ := hi
+    obtain ⟨h1, h2, h3⟩ := (Props.C03.counts_iff codecE f (φ hm) n e i).1 hval
+    refine ⟨h2, e, he, h1, ?_⟩
+    have h3' : (G1.decode (sigValue e)).map φ = some (priEval f (i : Int) • φ hm) := h3
+    cases hd : G1.decode (sigValue e) with
+    | none => rw [hd] at h3'; cases h3'
+    | some s =>
+      rw [hd, Option.map_some] at h3'
+      have hs := decode_valid _ _ hd
+      have : φ s = φ (G1.mul (priEval f (i : Int)).val hm) := by
+        rw [(hmul _ hm hv).2]; exact Option.some.inj h3'
+      rw [φ_inj hs (hmul _ hm hv).1 this])
+  rwa [Finset.length_toList] at this
+
+/-! non-vacuity: the base point and its multiples are valid, the driver's operations on them obey the
+group laws (evaluated by the kernel), and a decoded share is valid -/
+
+theorem base_valid : Valid G1.base := by
+  show 1 < G1.p ∧ 2 < G1.p ∧ G1.onCurve 1 2 = true
+  decide
+
+example : G1.add (G1.add G1.base G1.base) (G1.neg G1.base) = G1.base := by decide +kernel
+example : Valid (G1.mul 12345 G1.base) := (g1_driver_mul_is_scalar_multiple 12345 G1.base base_valid).1
+example : G1.add G1.base (G1.mul 5 G1.base) = G1.add (G1.mul 5 G1.base) G1.base :=
+  (g1_driver_add_laws _ _ G1.base base_valid (g1_driver_mul_is_scalar_multiple 5 _ base_valid).1 base_valid).1
+example : φ (G1.mul 7 G1.base) = 7 • φ G1.base := (g1_driver_mul_is_scalar_multiple 7 G1.base base_valid).2
 
 end Dos.Props.C02ComposeG1
